@@ -66,10 +66,18 @@ def mutate(obj, rng):
     return how
 
 
+_GUARD_CALLS = [0]
+
+
 def guard(ctx, name, f, operands, rng, protect=True):
     """Runs f() with digests / write traps on `operands`, alias scan and mutate-result probe on a returned object."""
     detail = {'operation': name}
     d0 = [monitor.digest(o) for o in operands]
+    _GUARD_CALLS[0] += 1
+    if _GUARD_CALLS[0] % 3 == 0:
+        # every third call WITHOUT write traps: a read-only operand can steer the code away from an in-place branch that a writeable array owning
+        # its memory would take; the digests before / after decide alone there
+        protect = False
     try:
         if protect:
             with monitor.write_protected(*operands):
